@@ -385,7 +385,9 @@ func (c *Conn) Read(b []byte) (int, error) {
 }
 
 func (c *Conn) Write(b []byte) (int, error) {
-	simrt.YieldHint("net.write", c.hint())
+	// No scheduling point on entry: libraries call Write with their own sync.Mutex held
+	// (http.Server.Close -> tls.Conn.Close -> close_notify), and a goroutine parked here would
+	// leave their other goroutines blocked non-durably. Write parks only when it must block.
 	n := c.link.net
 	d := c.out
 	total := 0
